@@ -188,3 +188,19 @@ Example src_constants_consistent :
   has_prefix src_ucan_tag_prefix src_dlg_tag = true /\ has_prefix src_ucan_tag_prefix src_inv_tag = true /\
   str_eqb src_dlg_tag src_inv_tag = false.
 Proof. repeat split; vm_compute; reflexivity. Qed.
+
+(* ---- DAG-JSON: the premises of C07_dagjson_codec_roundtrip are met by the example delegation's payload (text outside
+   ASCII, a policy with a map literal, bytes, links), and the theorem's conclusion computes ---- *)
+Require Import Utf8Proofs DagJson DagJsonProofs.
+Definition ex_json_value : node :=
+  Map [(lit "meta", Map [(lit "zz", Int (-7)); (lit "a", Str [195; 169; 34; 10])]);      (* "é", a quote, a line feed *)
+       (lit "sig", Bytes [0; 255; 16]); (lit "prf", List [Link [1; 113; 18; 32; 7]]); (lit "exp", Null); (lit "ok", Bool true)].
+Example ex_json_safe : jsafe ex_json_value /\ (jdepth ex_json_value <= 4)%nat.
+Proof.
+  assert (T : forall s, Forall (fun c => c < 128) s -> utf8_text s) by exact ascii_is_text.
+  split; [|vm_compute; lia].
+  cbn [jsafe ex_json_value fst snd]. repeat split; try discriminate; try (apply T; repeat constructor; fail); try (repeat constructor; fail).
+  exists [233; 34; 10]. split; [repeat constructor; left; vm_compute; reflexivity | vm_compute; reflexivity].
+Qed.
+Example ex_json_roundtrip : jdec 4 (jenc ex_json_value) = Some (canonj ex_json_value, []).
+Proof. vm_compute. reflexivity. Qed.
